@@ -83,6 +83,9 @@ func c03Request(method string, n int, widx []int, types []int, prefix string) M 
 		if types != nil && types[i] == 1 {
 			t = "cost"
 		}
+		if types != nil && types[i] == 2 {
+			t = "" // type left out: the documented default is gain
+		}
 		crits = append(crits, crit(id, t))
 	}
 	var ka L
@@ -293,6 +296,10 @@ func c03Check(c *Case) []Violation {
 	types, weights, capsKnown := c03Effective(req, resp)
 	var vs []Violation
 	for _, e := range resp.Result {
+		if _, isNum := e.Evaluation["value"].(float64); !isNum {
+			vs = append(vs, viol(c, "C03/"+method+"/value-not-reported", "alternative %s: the evaluation %v carries no numeric value", e.Alternative.ID, e.Evaluation))
+			continue
+		}
 		got := asF(e.Evaluation["value"])
 		vals := e.Alternative.Criteria
 		for k := range types {
@@ -343,7 +350,41 @@ func roundTrip(v interface{}) interface{} {
 
 // c03Large: values of large magnitude: near-ties that are far apart in absolute terms (1000 vs 1000.004: not tied under
 // the absolute 1e-5 rule) and aggregates beyond 2^63*1e-8.
+// c03Neighbours: alternatives whose aggregate loses low-order bits (1e16 + 1, 1e9 + 3e-8) listed right before small
+// ones and before twins of them, in several listing orders: nothing computed for one alternative may leak into the next.
+func c03Neighbours(s *Shard) {
+	rows := map[string][]float64{"a": {1e16, 1}, "b": {5, 3}, "c": {5, 3}, "d": {1e9, 3e-8}, "e": {2, 2}, "f": {-1e16, 0.5}, "g": {0.25, 0.125}}
+	orders := [][]string{{"a", "b", "c", "d", "e", "f", "g"}, {"g", "f", "e", "d", "c", "b", "a"}, {"b", "a", "c", "f", "g", "d", "e"}, {"d", "e", "a", "g", "f", "c", "b"}}
+	for _, method := range utilMethods {
+		for _, order := range orders {
+			for _, chose := range orders {
+				if !s.Take() {
+					continue
+				}
+				var ka L
+				for _, id := range order {
+					ka = append(ka, alt(id, map[string]float64{"c1": rows[id][0], "c2": rows[id][1]}))
+				}
+				w := M{"c1": 1.0, "c2": 1.0}
+				if method == "owa" {
+					w = M{"c1": 0.5, "c2": 0.5}
+				}
+				if method == "choquetIntegral" {
+					w = M{"c1": 0.5, "c2": 0.5, "c1,c2": 1.0}
+				}
+				req := M{"preferenceFunction": method, "knownAlternatives": ka, "choseToMake": strs(chose), "criteria": L{crit("c1", "gain"), crit("c2", "gain")}, "methodParameters": M{"weights": w}}
+				c := &Case{Prop: "C03", Kind: "request", Req: req}
+				s.Evals++
+				s.Begin(c)
+				s.Report(c03Check(c))
+				s.Outcome(true, method, "neighbours", fmt.Sprint(order, chose))
+			}
+		}
+	}
+}
+
 func c03Large(s *Shard) {
+	c03Neighbours(s)
 	big := []float64{1000, 1000.004, 2000, 1e11, -1e11, 3}
 	for _, method := range utilMethods {
 		for n := 2; n <= 3; n++ {
@@ -496,7 +537,7 @@ func c03Run(s *Shard) {
 				for i := range tdims {
 					tdims[i] = 1
 					if method == "weightedSum" {
-						tdims[i] = 2
+						tdims[i] = 3 // gain, cost, type left out (= gain)
 					}
 				}
 				run := func(widx []int) {
